@@ -391,8 +391,8 @@ pub fn lifecycle(seed: u64) -> RunOutcome {
 }
 
 pub fn batches(tier: &str, seed: u64) -> Vec<Batch<'static>> {
-    let (n1, n2, n3, pts) = if tier == "quick" { (600u64, 150u64, 400u64, 150u64) } else { (20_000, 5_000, 10_000, 2000) };
-    let n4 = if tier == "quick" { 16u64 } else { 400 };
+    let (n1, n2, n3, pts) = if tier == "quick" { (400u64, 100u64, 400u64, 150u64) } else { (20_000, 5_000, 10_000, 2000) };
+    let n4 = if tier == "quick" { 10u64 } else { 400 };
     vec![
         Batch { name: "representative file-I/O + namespace script, every step a target, every fault position".into(), runs: n4, f: Box::new(move |i| scripted(crate::rng::run_seed(seed, 14, i))) },
         Batch { name: "single-fault enumeration over seeded histories".into(), runs: n1, f: Box::new(move |i| scenario(crate::rng::run_seed(seed, 11, i), false, pts)) },
